@@ -112,6 +112,11 @@ Section Rtf.
     {| depth := depth q; skip := skip q; skip_depth := skip_depth q; out := out q; cur := [];
        pages := match page_text with [] => pages q | _ => page_text :: pages q end |}.
 
+  (* \page / \sbkpage: flush_page(); result.append("\n")  (the new line goes to `result` only) *)
+  Definition page_break (q : st) : st :=
+    let f := flush_page q in
+    {| depth := depth f; skip := skip f; skip_depth := skip_depth f; out := NL :: out f; cur := cur f; pages := pages f |}.
+
   Definition is_skip_destination (ahead : str) : bool :=
     startswith ahead [BSL; 42] || existsb (fun kw => startswith ahead (BSL :: kw)) (skip_dests T).
 
@@ -167,7 +172,7 @@ Section Rtf.
     if N.eqb c LBRACE then
       let d := (depth q + 1)%Z in
       let enter := match r with
-                   | c1 :: _ => N.eqb c1 BSL && is_skip_destination (firstn 29 r)
+                   | c1 :: _ => negb (skip q) && N.eqb c1 BSL && is_skip_destination (firstn 29 r)
                    | [] => false end in
       Ok ({| depth := d; skip := if enter then true else skip q;
              skip_depth := if enter then d else skip_depth q;
@@ -205,7 +210,7 @@ Section Rtf.
             let control_word := rstrip isspace (alpha ++ digs ++ sp) in
             let word_only := rstrip_pred digit_or_minus control_word in
             let q' :=
-              if str_eqb word_only (s "page") || str_eqb word_only (s "sbkpage") then flush_page q
+              if str_eqb word_only (s "page") || str_eqb word_only (s "sbkpage") then page_break q
               else match assoc word_only (special T) with
                    | Some chars => emit q chars
                    | None => q end in
